@@ -58,10 +58,13 @@ pub fn generate(run_seed: u64, corpus: &Corpus, sw: &Swarm, i: u64, exhaustive: 
         let n_env = W5_ENVS.len() as u64;
         let (kind, cl) = W5_ENVS[(i % n_env) as usize];
         let client = client_for(cl);
+        // first the W5 character strings, then the W8 token strings, each x 6 environments
+        let w5 = gen::w5_count(if exhaustive > 5_000_000 { 5 } else { 4 });
+        let k = i / n_env;
         return Case {
             prop: "C01".into(),
-            gen: "W5-exhaustive".into(),
-            text: gen::w5_nth(i / n_env),
+            gen: if k < w5 { "W5-exhaustive".into() } else { "W8-tokens".into() },
+            text: if k < w5 { gen::w5_nth(k) } else { gen::nth_token_string(k - w5) },
             input: kind,
             peeks: if client == Client::PeekNext { vec![1, 0, 2] } else { vec![] },
             extra_calls: 1,
